@@ -35,7 +35,9 @@ def logit_problems(draw, tier='quick', min_free=2, max_free=4, bounds_kind=None,
     k_fixed = draw(st.integers(0, 1)) if allow_fixed else 0
     names = draw(st.lists(st.sampled_from(PARAM_NAMES), min_size=k_free + k_fixed, max_size=k_free + k_fixed,
                           unique=True))
-    n_attr = draw(st.integers(1, 3))
+    need = k_free + k_fixed
+    n_attr_min = max(1, -(-(need - (n_alts - 1)) // n_alts))
+    n_attr = draw(st.integers(n_attr_min, max(3, n_attr_min)))
     attrs = draw(st.lists(st.sampled_from(ATTR_NAMES), min_size=n_attr, max_size=n_attr, unique=True))
     true = [draw(gen.dyadic(-1.5, 1.5, 4)) for _ in names]
     status = [0] * k_free + [1] * k_fixed
@@ -52,18 +54,19 @@ def logit_problems(draw, tier='quick', min_free=2, max_free=4, bounds_kind=None,
     # utilities: every free parameter is used at least once; generic (same parameter, alternative-specific
     # attribute columns) or alternative-specific constants
     terms = {str(a): [] for a in alts}
-    for p in range(len(params)):
-        kind = draw(st.sampled_from(['generic', 'generic', 'asc', 'altspec']))
+    # identified by construction: every parameter gets its own "slot" (a generic attribute, a constant of a
+    # non-reference alternative, or an alternative-specific attribute), drawn without replacement
+    slots = [('generic', attr, None) for attr in attrs] + [('asc', None, a) for a in alts[1:]]
+    slots += [('altspec', attr, a) for attr in attrs for a in alts[1:]]
+    chosen = draw(st.permutations(slots))[:len(params)]
+    for p, (kind, attr, a) in enumerate(chosen):
         if kind == 'generic':
-            attr = draw(st.sampled_from(attrs))
-            for a in alts:
-                terms[str(a)].append([p, f'{attr}_{a}'])
+            for a_ in alts:
+                terms[str(a_)].append([p, f'{attr}_{a_}'])
         elif kind == 'asc':
-            a = draw(st.sampled_from(alts[1:] or alts))
             terms[str(a)].append([p, None])
         else:
-            a = draw(st.sampled_from(alts))
-            terms[str(a)].append([p, f'{draw(st.sampled_from(attrs))}_{a}'])
+            terms[str(a)].append([p, f'{attr}_{a}'])
     spec = dict(alts=alts, params=params, true=true, terms=terms, attrs=attrs,
                 n_rows=n_rows or draw(st.integers(25, 120 if big else 60)),
                 data_seed=draw(st.integers(0, 10**6)), weights=draw(st.booleans()) if allow_weights else False,
